@@ -22,20 +22,23 @@ def gen_case(r):
     live = []
     torn = False
     crashed = False
-    for _ in range(r.choice([6, 10, 14, 18])):
+    for step in range(r.choice([6, 10, 14, 18])):
         k = r.random()
+        if torn and k < 0.32 and r.random() < 0.6:
+            k = 0.5                        # after the teardown has begun spawn less often
         if k < 0.32 and n < 7:
             segs = r.choice([0, 1, 1, 2, 3])
             raising = r.random() < (0.3 if verdict is not False else 0.12) if verdict is not None else r.random() < 0.08
             ending = ["ERaise", 10 + n] if raising else ["EReturn"]
-            gates.append(["Spawn", segs, ending, r.choice(["soon", "start"]), r.choice(["owner", "child", "direct"])])
+            oncancel = 50 + n if segs and r.random() < 0.25 else None
+            gates.append(["Spawn", segs, ending, r.choice(["soon", "start"]), r.choice(["owner", "child", "direct"]), oncancel])
             live.append(n)
             n += 1
         elif k < 0.75 and live:
             gates.append(["Task", r.choice(live)])
         elif k < 0.88 and live:
             gates.append(["Cancel", r.choice(live + list(range(n)))])
-        elif k < 0.95 and not torn:
+        elif k < 0.95 and not torn and step >= 4:
             gates.append(["Teardown"])
             torn = True
         elif n:
@@ -46,14 +49,15 @@ def gen_case(r):
         for _ in range(3):
             gates.append(["Task", k])
     if r.random() < 0.5:
-        gates.append(["Spawn", 1, ["EReturn"], r.choice(["soon", "start"]), "direct"])   # after teardown: must fail
+        gates.append(["Spawn", 1, ["EReturn"], r.choice(["soon", "start"]), "direct", None])   # after teardown: must fail
     return {"verdict": verdict, "nested": r.random() < 0.5, "gates": gates}
 
 
 def gate_term(g):
     if g[0] == "Spawn":
         e = "EReturn" if g[2][0] == "EReturn" else f"(ERaise {g[2][1]})"
-        return f"(GSpawn (Beh {g[1]} {e}))"
+        oc = "None" if len(g) < 6 or g[5] is None else f"(Some {g[5]})"
+        return f"(GSpawn (Beh {g[1]} {e} {oc}))"
     if g[0] == "Task":
         return f"(GTask {g[1]})"
     if g[0] == "Cancel":
@@ -116,17 +120,19 @@ def oracle(r):
                         f"finished = {sorted(spawned - finished)}"))
         if crashed and s["live"]:
             bad.append(("C09:handles", f"step {i}: handles {s['live']} listed after the application went down"))
-    raising = {}
+    raising, oncancel = {}, {}
     k = 0
     for g in r["gates"]:
         if g[0] == "Spawn":
             if g[2][0] == "ERaise":
                 raising[k] = g[2][1]
+            if len(g) > 5 and g[5] is not None:
+                oncancel[k] = g[5]
             k += 1
     for k, n in handler_calls.items():
         if n != 1:
             bad.append(("C09:handler-twice", f"the exception handler was called {n} times for task {k}"))
-        if k not in raising:
+        if k not in raising and k not in oncancel:
             bad.append(("C09:handler-spurious", f"the exception handler was called for task {k}, which did not raise"))
     if r["verdict"] is True and crashed:
         bad.append(("C09:swallow-ignored", "the handler returned a truthy value but the exception propagated"))
@@ -150,10 +156,12 @@ def oracle(r):
                     (g[0] == "Task" and g[1] == k and segs_done.get(k) == n and ["Seg", k] in s["obs"])
                     or (g[0] == "Spawn" and n == 0 and ["Spawned", k, True] in s["obs"])):
                 bad.append(("C09:wait-finished", f"task {k} returned but wait_finished() did not return"))
-        for k in raised_now:
+        raised = [(k, beh[k][1][1]) for k in raised_now]
+        if g[0] == "Cancel" and g[1] in oncancel and ["CancelSeen", g[1]] in s["obs"]:
+            raised.append((g[1], oncancel[g[1]]))          # raises while unwinding from cancel()
+        for k, e in raised:
             if went_down is not None:
                 continue
-            e = beh[k][1][1]
             if r["verdict"] is not None and ["Handler", k, e] not in s["obs"]:
                 bad.append(("C09:handler-not-called", f"task {k} raised {e} but the handler was not consulted with it"))
             if ["Ended", k] not in s["obs"]:
